@@ -34,6 +34,7 @@ _deny("address is implied by registers that are not memory operands (xlatb: [rbx
 _deny("transactional / user-interrupt / shadow-stack control", "xbegin xend xabort xtest clui stui testui uiret senduipi")
 _deny("AMX tile state (needs XTILEDATA permission); table-checked only", "ldtilecfg sttilecfg tilerelease")
 _deny("performance counter / privileged-when-disabled", "rdpmc rdpru")
+_deny("valid in system-management mode only (#UD elsewhere)", "rsm")
 
 NONDET = set("rdtsc rdtscp rdrand rdseed rdpid cpuid".split())
 UNIQUE_DST = set("vfcmaddcph vfmaddcph vfcmaddcsh vfmaddcsh vfcmulcsh vfmulcsh vfcmulcph vfmulcph".split())
@@ -56,14 +57,25 @@ def op_class(o):
     return G.CLASS_OF.get(o["regType"]) or G.CLASS_OF.get(o["reg"])
 
 
-def exclusion(form, host, known_features):
-    """None if the form can be executed on this host, else (kind, reason)."""
+def exclusion(form, host, known_features, mode=64):
+    """None if the form can be executed on this host (in 64-bit mode, or through the 32-bit gate), else (kind, reason)."""
     if form["privilege"] != "L3":
         return ("privileged", "privilege " + form["privilege"])
     if form["control"] != "none":
         return ("control-flow", form["control"])
-    if form["arch"] == "X86":
-        return ("x86-32-only", "32-bit only form (the sandbox executes 64-bit code)")
+    if mode == 64 and form["arch"] == "X86":
+        return ("x86-32-only", "32-bit only form (executed through the 32-bit gate)")
+    if mode == 32:
+        if form["arch"] == "X64":
+            return ("x64-only", "64-bit only form")
+        # the 32-bit pass is about native_gp_size == 4: legacy-encoded forms on general-purpose registers and memory
+        if form["prefix"]:
+            return ("not-in-32-bit-pass", "VEX/EVEX/XOP form")
+        for o in form["operands"]:
+            if o["reg"] and not (o["reg"] in G.FIXED_REGS and G.FIXED_REGS[o["reg"]][0].startswith("gp")) and op_class(o) not in ("gp8", "gp16", "gp32"):
+                return ("not-in-32-bit-pass", "operand class")
+            if o.get("vsibReg"):
+                return ("not-in-32-bit-pass", "vsib")
     if form["name"] in DENY:
         return ("deny-list", DENY[form["name"]])
     for o in form["operands"]:
@@ -190,11 +202,22 @@ class CaseGen:
                 v.append("z")
         if form.get("broadcast") and any((o.get("bcstSize") or -1) > 0 and o["mem"] for o in opers):
             v.append("c")
+        # {k} / {k}{z} together with a PLAIN memory operand (no broadcast): masked loads (vpmovzx*, vbroadcast*, vpexpand*, vmovdqu8..)
+        # and masked stores (vpmov* down-converts, vpcompress*, vcvtps2ph, vmovdqu*): the special categories of query_rw_info
+        rm = [i for i, o in enumerate(opers) if o["reg"] and o["mem"]]
+        if form.get("kmask") and rm:
+            v.append("km")
+            if form.get("zmask") and rm[0] != 0:
+                v.append("zm")   # {z} with a memory destination does not exist
+        # uniqueness probe: destination register == vector index (gathers) / == a source (FP16 complex multiply): #UD by definition
+        if (vsib and opers and opers[0]["reg"] and group_of(op_class(opers[0])) == "vec") or form["name"] in UNIQUE_DST:
+            v.append("u")
         return v
 
-    def instantiate(self, form, tag):
+    def instantiate(self, form, tag, mode=64):
         """-> (ops, opts, extra, meta) or None"""
         rng = self.rng
+        areg = "gp64" if mode == 64 else "gp32"
         opers = form["operands"]
         fixed_ids = {"gp": set([4]), "vec": set(), "k": set(), "mm": set(), "st": set()}
         for o in opers:
@@ -203,7 +226,7 @@ class CaseGen:
                 fixed_ids.setdefault(group_of(t), set()).add(i)
         used = {k: set(v) for k, v in fixed_ids.items()}
         evex = form["prefix"] == "EVEX"
-        want_mem = tag in ("m", "c")
+        want_mem = tag in ("m", "c", "km", "zm")
         mem_done = False
         same = {}
         ops = []
@@ -215,7 +238,7 @@ class CaseGen:
             if grp == "gp":
                 if tag == "h":
                     return list(range(8, 16))
-                if hi8:
+                if hi8 or (mode == 32 and cls == "gp8"):
                     return [0, 1, 2, 3] if cls == "gp8" else [0, 1, 2, 3, 5, 6, 7]
                 return [0, 1, 2, 3, 5, 6, 7]
             if grp == "vec":
@@ -228,6 +251,8 @@ class CaseGen:
 
         def pick(grp, cls, n=1):
             p = [i for i in pool(grp, cls) if i not in used.setdefault(grp, set())]
+            if not p and mode == 32:
+                p = [i for i in (range(4) if cls == "gp8" else range(8)) if i != 4] if grp == "gp" else [i for i in range(8)]
             if not p:
                 p = [i for i in range(16) if i not in used[grp]] if grp in ("gp", "vec") else [i for i in range(8)]
             if n > 1:
@@ -307,12 +332,12 @@ class CaseGen:
             if o["mem"].startswith("moff"):
                 m["addr"] = "abs"
             elif ib is not None:
-                m["base"] = ("gp64", ib)
+                m["base"] = (areg, ib)
                 used["gp"].add(ib)
             else:
-                b = pick("gp", "gp64")
+                b = pick("gp", areg)
                 used["gp"].add(b)
-                m["base"] = ("gp64", b)
+                m["base"] = (areg, b)
                 if o.get("vsibReg"):
                     vi = pick("vec", o["vsibReg"])
                     used["vec"].add(vi)
@@ -328,9 +353,9 @@ class CaseGen:
                     elif style == "bd32":
                         m["disp"] = rng.choice([0x1000, -0x2000, 0x12345678, -0x12345678])
                     elif style == "bisd":
-                        x = pick("gp", "gp64")
+                        x = pick("gp", areg)
                         used["gp"].add(x)
-                        m["index"] = ("gp64", x)
+                        m["index"] = (areg, x)
                         m["shift"] = rng.below(4)
                         m["disp"] = rng.choice([0, 24, -56, 0x400])
             if tag == "c" and (o.get("bcstSize") or -1) > 0 and o["memSize"] and o["memSize"] > 0:
@@ -344,10 +369,27 @@ class CaseGen:
             nmem += 1
         if tag == "c" and not any(op[0] == "M" and op[1]["bcst"] for op in ops):
             return None
+        if tag in ("km", "zm") and not any(op[0] == "M" for op in ops):
+            return None
+        if tag == "u":
+            if not (ops and ops[0][0] == "R" and ops[0][1] in VEC_CLASSES):
+                return None
+            did = ops[0][2]
+            vs = [i for i, op in enumerate(ops) if op[0] == "M" and op[1]["index"] and op[1]["index"][0] in VEC_CLASSES]
+            if vs:
+                m = dict(ops[vs[0]][1])
+                m["index"] = (m["index"][0], did)
+                ops[vs[0]] = ("M", m)
+            else:
+                rs = [i for i, op in enumerate(ops) if i > 0 and op[0] == "R" and op[1] in VEC_CLASSES]
+                if not rs:
+                    return None
+                ops[rs[-1]] = ("R", ops[rs[-1]][1], did)
+            meta["u"] = 1
         opts, extra = 0, None
-        if tag in ("k", "z"):
+        if tag in ("k", "z", "km", "zm"):
             extra = ("k", rng.range(1, 7))
-            if tag == "z":
+            if tag in ("z", "zm"):
                 opts |= G.OPT_ZMASK
         elif form.get("kmask") and tag == "c":
             extra = ("k", rng.range(1, 7))
@@ -356,7 +398,7 @@ class CaseGen:
         if evex:
             opts |= G.OPT_EVEX
         # a free base register for the M-form
-        free = [i for i in range(8 if hi8 else 16) if i not in used["gp"]]
+        free = [i for i in range(8 if (hi8 or mode == 32) else 16) if i not in used["gp"]]
         if free:
             meta["mb"] = free[rng.below(len(free))]
         return ops, opts, extra, meta
@@ -366,8 +408,8 @@ class CaseGen:
         mask and reg/mem choice of a form reports under the same key"""
         return form_sig(form)
 
-    def make_case(self, form, tag, probe=False):
-        r = self.instantiate(form, tag)
+    def make_case(self, form, tag, probe=False, mode=64):
+        r = self.instantiate(form, tag, mode)
         if r is None:
             return None
         ops, opts, extra, meta = r
@@ -385,6 +427,8 @@ class CaseGen:
             fx += "c"    # ecx selects the XCR; anything but 0/1 is #GP
         if name in ("bsf", "bsr"):
             fx += "z"    # destination undefined when the source is 0 (ZF=1): keeping the old value is not a defined result
+        if meta.get("u"):
+            fx += "uM"
         if probe:
             fx += "pM"
         if name in ("insertps", "vinsertps") and any(op[0] == "I" and (op[1] & 0xC0) for op in ops):
@@ -393,7 +437,7 @@ class CaseGen:
             # bit offsets stay inside the operand: the memory form addresses a bit string (documented ISA behaviour)
             meta["bo"] = ops[0][1]["size"] * 8 if ops[0][0] == "M" else {"gp16": 16, "gp32": 32, "gp64": 64}.get(ops[0][1], 16)
         sig = self.signature(form, ops, tag, extra, opts)
-        c = dict(id=self.next_id, arch="x64", form=form["_idx"], name=name, opts=opts, extra=extra, ops=ops, variant=tag, sig=sig)
+        c = dict(id=self.next_id, arch="x64" if mode == 64 else "x86", form=form["_idx"], name=name, opts=opts, extra=extra, ops=ops, variant=tag, sig=sig)
         self.next_id += 1
         toks = ["sig=" + sig, "uf=%x" % undef_flags(form)]
         if fx:
